@@ -24,6 +24,32 @@ CHECKS = {
     ),
 }
 
+CHECKS.update({
+    "C01": dict(
+        level="exploration", engine="bex",
+        text="Every int-sorted program of a typed grammar of the value language (let, func with bounded-descent recursion, closures with 1..2 "
+             "parameters, currying, if/switch/try, list/map literals, index, member, map-field closure calls, map/reduce/sum/size/append, min/throw) "
+             "with <= 7 (thorough: 8) nodes, and every nesting of <= 3 (thorough: 5) binding/call constructs in every argument position with a maximal "
+             "observer in the innermost hole, is generated with the optimizer on and off and evaluated on every argument tuple; the outcome must "
+             "equal that of an independent reference interpreter. Exhaustive within those bounds (about 9.5 M evaluations quick).",
+        note="Trusted: the reference interpreter internal/refsem (lexically scoped, call-by-value, left-to-right; only ok-vs-error for faults) and the "
+             "renderer internal/vlang. Not decided: programs larger than the bounds, floats/strings as arguments (covered by C02/C14 tables).",
+        technique="bounded-exhaustive enumeration of programs x argument tuples x optimizer settings against a reference interpreter",
+        design_ref="DESIGN.md §5 C01",
+    ),
+    "C02": dict(
+        level="exploration", engine="bex",
+        text="Differential twin: the whole input space of the optimizer's folding and regrouping rules (every operator x 8 chain shapes x 12 constants of "
+             "every sort x 8 argument values; unary/if/switch/index/member/method/application/try on every constant) and every program of the typed grammar "
+             "with counting host functions up to 7 (thorough: 8) nodes is generated with the optimizer on and removed; outcomes and impure-call counts must "
+             "agree, no impure call during Generate, and counts must equal the reference interpreter's.",
+        note="Trusted: SetOptimizer(nil) really disables folding; counting host functions tick (impure) / ptick (pure). Float constants are dyadic so the "
+             "rounding allowance is never used. The float/bool instantiations are decided by C19's check.",
+        technique="bounded-exhaustive differential enumeration (optimizer on vs off) with call counters and a reference interpreter",
+        design_ref="DESIGN.md §5 C02",
+    ),
+})
+
 NOT_YET = "check not built yet in this session (planned, see DESIGN.md §9); not claimed until its machinery exists"
 
 def main():
